@@ -217,7 +217,9 @@ func c11Gen(r *rand.Rand, id int, scenario string) *c11Prog {
 			p.Stmts[i].SQL = fmt.Sprintf(p.Stmts[i].SQL, tname(p.Stmts[i].Tbl))
 		}
 	}
-	p.Args = []string{"-w", "0.15"}
+	if scenario == "timeout" {
+		p.Args = []string{"-w", "0.4"} // everywhere else the default of 10 s: wall-clock stalls must not look like lock timeouts
+	}
 	switch r.Intn(8) {
 	case 0:
 		p.LB = []byte("\r\n")
@@ -378,6 +380,7 @@ func c11Segments(ops []fsOp) []c11Seg {
 }
 
 type c11Model struct {
+	Blocked bool // the run ends at a statement that waits for a competing holder
 	Prog, Fin, Ord string
 	Absent, AllNone []int
 	Show    []string
@@ -453,6 +456,7 @@ func (p *c11Prog) translate(o c11Obs) c11Model {
 			if !(held[t] || ro[t]) {
 				if !exists[t] || blockedRead[t] {
 					ended = true
+					m.Blocked = exists[t]
 					break
 				}
 				acq++
@@ -474,6 +478,7 @@ func (p *c11Prog) translate(o c11Obs) c11Model {
 			if !held[t] {
 				if !exists[t] || blockedUpd[t] {
 					ended = true
+					m.Blocked = exists[t]
 					break
 				}
 				acq++
@@ -493,6 +498,7 @@ func (p *c11Prog) translate(o c11Obs) c11Model {
 			pending = append(pending, pend{len(acts) - 1, t, true})
 			if exists[t] || blockedCreate[t] {
 				ended = true
+				m.Blocked = !exists[t]
 				break
 			}
 			acq++
@@ -549,7 +555,7 @@ func (p *c11Prog) coqCase(id int, o c11Obs, m c11Model, readonly bool) string {
 func runC11(seed int64, tier string, out string) {
 	r := rand.New(rand.NewSource(seed))
 	meta := newMeta("C11", seed)
-	meta.Rule = "programs generated from one seeded PRNG over t1..t3 (existing), n1/n2 (created), nosuch: SELECTs, effective and no-op UPDATE/INSERT/DELETE, CREATE TABLE (+INSERT), COMMIT, ROLLBACK; endings: success, syntax error, missing table (read/update), division by zero inside SELECT / UPDATE / CREATE TABLE AS SELECT, duplicate CREATE, EXIT, wait timeout (-w 0.15) against a hand-made .lock / .rlock / .temp of a competing holder, and SIGINT/SIGTERM/SIGQUIT injected by strace at the N-th call of a system call class (a spread of N in the quick tier, every N in the thorough tier); read-only programs additionally compare bytes and mtimes of every data file. Each run of build/csvq is one case; it is non-trivial when the run issued at least one mutating call on the repository; distinct = distinct (program, ending, injection point, observed trace) tuples."
+	meta.Rule = "programs generated from one seeded PRNG over t1..t3 (existing), n1/n2 (created), nosuch: SELECTs, effective and no-op UPDATE/INSERT/DELETE, CREATE TABLE (+INSERT), COMMIT, ROLLBACK; endings: success, syntax error, missing table (read/update), division by zero inside SELECT / UPDATE / CREATE TABLE AS SELECT, duplicate CREATE, EXIT, wait timeout (-w 0.4) against a hand-made .lock / .rlock / .temp of a competing holder, and SIGINT/SIGTERM/SIGQUIT injected by strace at the N-th call of a system call class (a spread of N in the quick tier, every N in the thorough tier); read-only programs additionally compare bytes and mtimes of every data file. Each run of build/csvq is one case; it is non-trivial when the run issued at least one mutating call on the repository; distinct = distinct (program, ending, injection point, observed trace) tuples."
 	w := &shardWriter{dir: out, prop: "C11", max: 120, meta: meta,
 		header: "From Coq Require Import NArith List.\nRequire Import Csvq.Model.Base Csvq.Model.Fs Csvq.Model.Commit Csvq.Model.Cleanup Csvq.Harness.H11.\nOpen Scope list_scope.\n",
 		footer: func(ls []string) string {
@@ -615,7 +621,7 @@ func runC11(seed int64, tier string, out string) {
 	sigs := []string{"SIGINT", "SIGTERM", "SIGQUIT"}
 	var jobs []sjob
 	for i, p := range sprogs {
-		for _, c := range classes {
+		for ci, c := range classes {
 			total := srefs[i].Counts[c]
 			var ns []int
 			if spread == 0 || total <= spread {
@@ -623,14 +629,17 @@ func runC11(seed int64, tier string, out string) {
 					ns = append(ns, n)
 				}
 			} else {
+				// a fixed number of draws, so that the PRNG stream does not depend on the counts;
+				// two thirds of the points in the later half (repository activity is late in the run)
 				seen := map[int]bool{}
-				for len(ns) < spread {
-					n := 1 + r.Intn(total)
-					if total > 12 && r.Intn(3) > 0 {
-						n = total - r.Intn(total/2+1) // most repository activity is late in the run
-						if n < 1 {
-							n = 1
-						}
+				for k := 0; k < spread; k++ {
+					f := r.Float64()
+					if k%3 > 0 {
+						f = 0.5 + f/2
+					}
+					n := 1 + int(f*float64(total))
+					if n > total {
+						n = total
 					}
 					if !seen[n] {
 						seen[n] = true
@@ -639,7 +648,7 @@ func runC11(seed int64, tier string, out string) {
 				}
 			}
 			for _, n := range ns {
-				sig := sigs[r.Intn(3)]
+				sig := sigs[(ci+n)%3]
 				jobs = append(jobs, sjob{p, fmt.Sprintf("%s:signal=%s:when=%d", c, sig, n), sig, fmt.Sprintf("%s_%d", c, n)})
 			}
 		}
@@ -683,6 +692,15 @@ func runC11(seed int64, tier string, out string) {
 			}
 		}
 		m := p.translate(o)
+		// a wall-clock stall under load can make an unblocked acquisition hit the (short) wait timeout
+		// of the timeout scenario; only timeouts the directory explains are modelled: such a run is
+		// repeated (a genuine, repeatable spurious timeout is still reported)
+		for try := 0; try < 2 && !m.Blocked && (strings.Contains(o.Res.Stderr, "deadline exceeded") || strings.Contains(o.Res.Stderr, "timeout")); try++ {
+			meta.Distribution["repeated after an unexplained wait timeout"]++
+			o = p.run(fmt.Sprintf("retry%d", try), p.Inject)
+			o.P = p
+			m = p.translate(o)
+		}
 		w.add("cases:pcase", p.coqCase(id, o, m, readonly))
 		ending := p.Scenario
 		if p.Signal != "" {
